@@ -4,11 +4,13 @@ events and the submitted messages, replays them on the model (ElysModel.Ledger.C
 books with the observed ones, and evaluates the property predicates on the observed state. -/
 import ElysModel.Drv.Hist
 import ElysModel.Ledger.Commit
+import ElysModel.Drv.C12Lock
 open Lean
 namespace Elys.Drv.CommitH
 open Elys.Commit
 
 structure S where
+  lock : Elys.Drv.C12Lock.S := {}
   names : List (String × String) := []
   cmAddr : String := ""
   model : St := {}
@@ -146,7 +148,12 @@ def handle (prop : String) (s : S) (i : Nat) (j : Json) : S × List Json :=
     -- resync the model to the observation (ghosts kept) so that one disagreement is reported once
     ({ s with model := og }, if vs.isEmpty then [verdictOk i] else vs)
   | some "stats" => (s, [])
-  | _ => (s, [verdictBad i "unknown t"])
+  | some t =>
+    if t.startsWith "c12l." then
+      let (l', vs) := Elys.Drv.C12Lock.handle s.lock i j
+      ({ s with lock := l' }, vs)
+    else (s, [verdictBad i "unknown t"])
+  | none => (s, [verdictBad i "unknown t"])
 
 def run (prop : String) : IO Unit := do
   let stdin ← IO.getStdin
